@@ -1186,6 +1186,17 @@ func errEdgeCanFail(f *ssa.Function, e *scEngine, ev ssa.Value) bool {
 				if e.isFailureReturn(f, ret) || (errResultIndex(f) >= 0 && classifyReturn(f, ret) == retUnknown) {
 					return true
 				}
+				// a (value, ok bool) validator with a single exit: the verdict is a flag that can be false
+				if errResultIndex(f) < 0 && len(ret.Results) > 0 {
+					last := ret.Results[len(ret.Results)-1]
+					if bt, ok := last.Type().Underlying().(*types.Basic); ok && bt.Kind() == types.Bool {
+						for _, l := range append(phiLeaves(resolve(last)), resolve(last)) {
+							if k, ok := resolve(l).(*ssa.Const); ok && k.Value != nil && k.Value.String() == "false" {
+								return true
+							}
+						}
+					}
+				}
 			}
 		}
 	}
